@@ -19,6 +19,17 @@ CHECKS = {
     ),
 }
 
+CHECKS["C03"] = (
+    "crashx",
+    "fault_enumeration",
+    "exhaustive crash-point enumeration: every byte prefix of the recorded write history of real append sessions x every recovery history of a menu (incl. a second crash at every byte)",
+    "The real write history of each append session of a small alphabet is recorded through a stream proxy; the file image for EVERY crash point (every op prefix, every byte "
+    "of every write) is built and every recovery history (reopen r; reopen a + put + reopen r; via UKVFile and via Collection sessions; second crash at every byte of the "
+    "recovery append followed by both again) is executed on it with real molli objects and compared with the reference (committed exact; session records whole or absent; no foreign key; later appends exact).",
+    "Crash = process death: the file holds an in-order prefix of the session's writes (append-only premise checked by the recorder on every run); power-loss block reordering is outside the property. Sessions of 1..3 puts over 4..6 size classes (70 kB in thorough), 4 pre-states.",
+    "4 C03",
+)
+
 PENDING = {
 }
 
